@@ -58,6 +58,7 @@ RULES = {
     "REPLSCOPE": unify.rule_replscope,
     "CALLPRED": unify.rule_callpred,
     "HOLESIB": unify.rule_holesib,
+    "BUFBIND": unify.rule_bufbind,
     "CONDSPEC": unify.rule_condspec,
     "FRONTPIPE": frontend.rule_frontpipe,
     "OBLIG": frontend.rule_oblig,
